@@ -1,7 +1,7 @@
 //! Driver (forks worker processes, merges their statistics, writes the evidence
 //! file, decides the verdict), worker loop, replay and self-tests.
 
-use crate::case::Case;
+use crate::case::{Case, Op};
 use crate::check;
 use crate::interp::{Rec, Res};
 use crate::oracle::{RunData, Violation};
@@ -91,6 +91,8 @@ pub struct WStats {
     pub classes: BTreeMap<String, u64>,
     pub caps: BTreeMap<String, u64>,
     pub op_results: BTreeMap<String, u64>,
+    #[serde(default)]
+    pub paths: BTreeMap<String, u64>,
     pub hb_accesses: u64,
     pub hb_cross: u64,
     pub samples: Vec<Value>,
@@ -138,6 +140,9 @@ impl WStats {
         }
         for (k, v) in o.op_results {
             Self::bump(&mut self.op_results, k, v);
+        }
+        for (k, v) in o.paths {
+            Self::bump(&mut self.paths, k, v);
         }
         self.hb_accesses += o.hb_accesses;
         self.hb_cross += o.hb_cross;
@@ -245,6 +250,37 @@ fn account(st: &mut WStats, d: &RunData, prop: &str) {
     for r in d.recs.iter() {
         if r.task != 0 {
             WStats::bump(&mut st.op_results, format!("{}:{}", r.op.kind(), res_name(&r.res)), 1);
+            // transfer path coverage per payload class (C04): which way did the value travel?
+            let sent = r.op.is_send_like() && r.res == Res::SendOk;
+            let got = matches!(r.res, Res::RecvOk(_)) || matches!(&r.res, Res::Drained { appended, .. } if !appended.is_empty());
+            if sent || got {
+                let path = if sent && r.probes.contains(&rt::probe::DIRECT_TO_RECEIVER) {
+                    "written into a waiting receiver's slot"
+                } else if sent && r.reg.is_some() {
+                    "taken out of the waiting sender's slot by a receiver"
+                } else if sent {
+                    "buffer (send side)"
+                } else if r.probes.contains(&rt::probe::DIRECT_FROM_SENDER) {
+                    "receive read a waiting sender's slot (direct or refill)"
+                } else if r.reg.is_some() {
+                    "delivered into this waiting receiver's slot"
+                } else {
+                    "buffer (receive side)"
+                };
+                let waiter = match (&r.op, r.reg.is_some()) {
+                    (_, false) => "",
+                    (Op::ASend { .. } | Op::ARecv { .. } | Op::StreamNext { .. } | Op::FutPoll { .. }, true) => " [pending future]",
+                    (Op::SendTimeout { .. } | Op::SendOptTimeout { .. } | Op::RecvTimeout { .. }, true) => " [timed waiter]",
+                    (_, true) => {
+                        if r.probes.contains(&rt::probe::PARK_ENTER) {
+                            " [parked thread]"
+                        } else {
+                            " [spinning thread]"
+                        }
+                    }
+                };
+                WStats::bump(&mut st.paths, format!("{:?} / {}{}", d.case.class, path, waiter), 1);
+            }
         }
     }
     if st.probes.len() < d.outcome.probes.len() {
@@ -661,6 +697,7 @@ fn write_evidence(def: &check::CheckDef, prop: &str, tier: &str, seed: u64, runs
             "payload_classes": t.classes,
             "capacities": t.caps,
             "operation_results": t.op_results,
+            "transfer_paths(payload class / path [waiter kind])": t.paths,
             "monitored_accesses": t.hb_accesses,
             "monitored_cross_task_accesses": t.hb_cross,
             "inconclusive_runs(other property's oracle fired)": t.inconclusive,
